@@ -279,6 +279,9 @@ def load_unit(unit_dir):
             with open(os.path.join(unit_dir, inc), 'rb') as f2:
                 c2 = tomllib.load(f2)
             for fn in c2.get('fn', []):
+                if c.get('include_as_proved'):
+                    fn = dict(fn)
+                    fn['proved_in'] = c['include_as_proved']
                 contracts[norm_item(fn['item'])] = fn
         for fn in c.get('fn', []):
             contracts[norm_item(fn['item'])] = fn
@@ -354,7 +357,7 @@ def extract_chunks(unit, repo):
                         raise LostAnchor('%s: no fn `%s` in `%s %s`' % (srcspec['file'], nm, kind, header))
                     it = found[nm]
                     chunks.append(Chunk(srcspec['file'], _line_of(src, it.start), src[it.start:it.end],
-                                        '%s %s :: %s' % (kind, header, nm), impl_header='impl ' + header))
+                                        '%s %s :: %s' % (kind, header, nm), impl_header=('impl ' + header) if kind == 'impl' else ''))
             else:
                 kind, name = spec_n.split(' ', 1)
                 its = [it for it in top if it.kind == kind and it.name == name]
@@ -589,7 +592,9 @@ def build(unit_dir, repo='/repo', mutate=None, auto_items=None, vacuity=False):
     unit = load_unit(unit_dir)
     if vacuity:
         for k_, c_ in unit['_contracts'].items():
-            c_['_vacuity_probe'] = 'vacuity.' + k_.split('::')[-1].strip()
+            if c_.get('proved_in'):
+                continue
+            c_['_vacuity_probe'] = 'vacuity.' + re.sub(r'[^A-Za-z0-9_]+', '_', re.sub(r"<[^>]*>", '', k_.split(' ', 1)[-1])).strip('_')
     for (af, aspec) in (auto_items or []):
         unit.setdefault('source', []).append({'file': af, 'items': [aspec], 'auto': True})
     g = GenUnit(name=unit.get('name', os.path.basename(unit_dir)))
@@ -671,6 +676,10 @@ def build(unit_dir, repo='/repo', mutate=None, auto_items=None, vacuity=False):
         if key in contracts:
             used_contracts.add(key)
             c = contracts[key]
+            if c.get('proved_in'):
+                # the body is verified against this same contract in another unit; here only the contract is used
+                text = re.sub(r'^(\s*)', lambda m: m.group(1) + '#[verifier::external_body] ', text, count=1)
+                g.assumptions.append('contract of %s assumed here, proved in unit %s' % (key, c['proved_in']))
             for (txt, origin) in splice_contract(text, c, key):
                 if origin and origin[0] == 'repo':
                     lines.append((txt, {'kind': 'repo', 'file': ch.file, 'line': ch.first_line + origin[1], 'fn': key}))
